@@ -6,7 +6,14 @@ EXTENDS StructuredHeader, TLC, Json, IOUtils
 Trace == ndJsonDeserialize(IOEnv.VERIF_TRACE)
 VARIABLE l
 
+\* kind "parse": a string handed to both real parsers; verdicts and values against the reference parsers
+\* (Go's parameter maps carry no order: the harness lists them sorted by key, the reference parser in text order; keys are unique)
+PSet(ps) == { <<ps[i].k, ps[i].v>> : i \in 1..Len(ps) }
+PlEq(u, w) == Len(u) = Len(w) /\ \A i \in 1..Len(u) : u[i].label = w[i].label /\ Len(u[i].params) = Len(w[i].params) /\ PSet(u[i].params) = PSet(w[i].params)
+ParseJudge(ev) == LET a == RefParseLL(ev.s)  b == RefParsePL(ev.s) IN
+  ~ev.panic /\ ev.ll = a.ok /\ ev.pl = b.ok /\ (a.ok => ev.llv = a.v) /\ (b.ok => PlEq(ev.plv, b.v))
 Judge(ev) ==
+  IF ev.kind = "parse" THEN ParseJudge(ev) ELSE
   IF ev.kind = "ll"
   THEN IF ~ValidLL(ev.v) THEN ev.err
        ELSE ~ev.err /\ SerOkLL(ev.v, ev.out) /\ ev.v2ok /\ ev.v2 = ev.v
